@@ -52,7 +52,7 @@ pub mod ym_duration;
 pub mod zone;
 
 /// Regular expression pattern for parsing dates.
-const DATE_PATTERN: &str = r#"(?P<sign>-)?(?P<year>[1-9][0-9]{3,8})-(?P<month>[0-9]{2})-(?P<day>[0-9]{2})"#;
+const DATE_PATTERN: &str = r#"(?P<sign>-)?(?P<year>[1-9][0-9]{3,8}|0[0-9]{3})-(?P<month>[0-9]{2})-(?P<day>[0-9]{2})"#;
 
 /// Regular expression pattern for parsing time.
 const TIME_PATTERN: &str = r#"(?P<hours>[0-9]{2}):(?P<minutes>[0-9]{2}):(?P<seconds>[0-9]{2})(?P<fractional>\.[0-9]+)?"#;
